@@ -241,6 +241,76 @@ ELASTIC_THOROUGH = ["TRI10", "TRI15", "QUAD9", "TETRA10", "PRISM15", "PRISM18", 
 HEAVY = {"HEXA20", "HEXA27", "PRISM18"}
 
 
+def _beam_K(dim, timo, et, inclined, nL=3):
+    import contextlib, io
+    from EasyFEA import Models, Simulations, Mesher, ElemType
+    from EasyFEA.Geoms import Domain, Point, Line
+    with contextlib.redirect_stdout(io.StringIO()):
+        sect = Mesher().Mesh_2D(Domain(Point(), Point(0.3, 0.5)), elemType=ElemType.QUAD4)
+        L = 3.0
+        if dim == 1 or not inclined:
+            p2 = Point(L, 0, 0)
+        elif dim == 2:
+            p2 = Point(L * 0.6, L * 0.8, 0)
+        else:
+            p2 = Point(L / 3, 2 * L / 3, 2 * L / 3)
+        line = Line(Point(0, 0, 0), p2, L / nL)
+        beam = Models.Beam.Isotropic(dim, line, sect, 210e3, v=0.3)
+        mesh = Mesher().Mesh_Beams([beam], elemType=ElemType[et])
+        simu = Simulations.Beam(mesh, beam, useTimoshenko=timo)
+        K = simu.Get_K_C_M_F()[0].toarray()
+    return K, np.asarray(simu.mesh.coord), simu.Get_dof_n()
+
+
+def ob_beam_kernel(dim, timo, et, inclined):
+    """free beam: K symmetric, positive semi-definite, K r == 0 for every rigid motion (translations; rotations carry the matching nodal rotation), rank == ndof - number of rigid motions."""
+    K, co, dn = _beam_K(dim, timo, et, inclined)
+    n = K.shape[0]
+    Nn = n // dn
+    if Nn != co.shape[0]:
+        raise Unsupported(f"unexpected dof layout: {n} dofs, {co.shape[0]} nodes")
+    sc = np.abs(K).max()
+    asym = float(np.abs(K - K.T).max() / sc)
+    modes = []
+    if dim == 1:
+        modes.append(("tx", np.ones(n)))
+    elif dim == 2:
+        for d, nm in ((0, "tx"), (1, "ty")):
+            r = np.zeros((Nn, 3))
+            r[:, d] = 1
+            modes.append((nm, r.ravel()))
+        r = np.zeros((Nn, 3))
+        r[:, 0], r[:, 1], r[:, 2] = -co[:, 1], co[:, 0], 1.0
+        modes.append(("rot_z", r.ravel()))
+    else:
+        for d, nm in ((0, "tx"), (1, "ty"), (2, "tz")):
+            r = np.zeros((Nn, 6))
+            r[:, d] = 1
+            modes.append((nm, r.ravel()))
+        for k, nm in ((0, "rot_x"), (1, "rot_y"), (2, "rot_z")):
+            a = np.zeros(3)
+            a[k] = 1
+            r = np.zeros((Nn, 6))
+            r[:, :3] = np.cross(a, co)
+            r[:, 3 + k] = 1
+            modes.append((nm, r.ravel()))
+    tag = f"{dim}-D {'Timoshenko' if timo else 'Euler-Bernoulli'} {et}{' inclined' if inclined else ''}"
+    if asym > 1e-12:
+        raise Refuted(f"beam K ({tag}) is not symmetric: {asym:.2e}", signature=f"beam:{dim}:{timo}:{et}:sym", replay=dict(confirmed=True))
+    for nm, r in modes:
+        e = float(np.abs(K @ r).max() / (sc * np.abs(r).max()))
+        if e > 1e-10:
+            raise Refuted(f"beam K ({tag}): the rigid motion {nm} stores energy: |K r| / |K| = {e:.3e} (r'Kr / |K| = {float(r @ K @ r / sc):.3e})", cex=dict(mode=nm), signature=f"beam:{dim}:{timo}:{et}:rigid",
+                          replay=dict(confirmed=True, err=e))
+    w = np.linalg.eigvalsh((K + K.T) / 2)
+    if w.min() < -1e-9 * w.max():
+        raise Refuted(f"beam K ({tag}) has a negative eigenvalue {w.min():.3e}", signature=f"beam:{dim}:{timo}:{et}:psd", replay=dict(confirmed=True))
+    nz = int((w < 1e-9 * w.max()).sum())
+    if nz != len(modes):
+        raise Refuted(f"beam K ({tag}) has {nz} zero-energy modes, expected exactly the {len(modes)} rigid motions", signature=f"beam:{dim}:{timo}:{et}:rank", replay=dict(confirmed=True, zero_modes=nz))
+    return Verdict(DISCHARGED, backend="native beam simulation (free beam)", detail=f"{n} dofs")
+
+
 def build(tier, seed):
     obs = []
     fk = (f"{BP}::GradUGradV", f"{BP}::LinearizedElasticity", f"{GP}::_GroupElem.Get_B_e_pg", f"{GP}::_GroupElem.Get_dN_e_pg",
@@ -279,6 +349,13 @@ def build(tier, seed):
                       "EasyFEA/Simulations/_elastic.py::Elastic.Construct_local_matrix_system"), bound="2-element patch, one thickness/density value, floats",
                       clause="assembled mass/capacity sums to rho x measure x thickness (2-D) per direction and is positive definite", timeout=120))
     from . import C14
+    for dim in (1, 2, 3):
+        for timo in (False, True):
+            for et in ("SEG2", "SEG3") + (("SEG4", "SEG5") if tier == "thorough" else ()):
+                for inclined in ((False, True) if dim > 1 else (False,)):
+                    obs.append(Ob(f"C02.beam.{dim}d.{'timoshenko' if timo else 'bernoulli'}.{et}{'.inclined' if inclined else ''}", ob_beam_kernel, (dim, timo, et, inclined), "X",
+                                  ("EasyFEA/FEM/Elems/_beam.py::_Timoshenko.Get_beam_B_e_pg" if timo else "EasyFEA/FEM/Elems/_beam.py::_Euler_Bernoulli.Get_beam_B_e_pg", "EasyFEA/Simulations/_beam.py::Beam.Construct_local_matrix_system"),
+                                  bound="one free 3-element beam", clause="symmetric, PSD, K r == 0 for every rigid motion, exactly that many zero-energy modes", timeout=600))
     obs.append(Ob("C02.cache.transparent", C14.ob_cache_key, (), "B", ("EasyFEA/Utilities/_cache.py::cache_computed_values",),
                   bound="7 call spellings x all ordered pairs", clause="cached geometric factors (weighted Jacobians, B, N) are those the functions compute for the requested arguments"))
     obs.append(Ob("canary.rank.TRI3.thermal", ob_rank, ("TRI3", "thermal", 0, True), "B", expect=REFUTED, timeout=300))
